@@ -255,6 +255,8 @@ def impl_multi(case):
                 out += [1, msgid(m)]
                 if deliverable and st['n'] > 0 and fail is None:
                     fail = ('multiport-slow', 'MultiPort.receive slept %d times although a message was deliverable' % st['n'])
+                if not block and st['n'] > 0 and fail is None:
+                    fail = ('multiport-nonblocking-slept', 'MultiPort.receive(block=False) slept %d time(s)' % st['n'])
             except Hang:
                 out += [3, 13]
                 if fail is None and (deliverable or not block):
@@ -494,6 +496,14 @@ def run(out):
     jobs += chunk_jobs(iocases, 'ioport', COMP_IOPORT, 4)
     for tag, rec in core.pmap(job, jobs):
         core.merge_into(out, rec, tag)
+    # close() called from several threads at once: still one release (scheduled real threads, every schedule within the preemption bound)
+    from props import threads_extra
+    nc_, exc_, npc_, fc_ = threads_extra.close_scenarios(out.tier == 'quick')
+    out.evaluations += nc_
+    out.components['close() from several threads (scheduled, implementation against the statement)'] = {
+        'cases': nc_, 'programs': npc_, 'programs_with_all_schedules_within_the_preemption_bound': exc_, 'oracle_failures': len(fc_)}
+    for f in fc_[:10]:
+        out.failures.append((f[0], f[1], {'component': 'close-threads'}))
     out.rule = ('device doubles (BaseIOPort and EchoPort subclasses recording _open/_close/_send, fed by a script of _receive actions: message, nothing, push into the queue, '
                 'device closes itself, push then close); ALL operation sequences of length <= 2 and a sample of length 3 over send/receive(block)/receive(non-block)/poll/'
                 'iter_pending/iterate all/iterate 1/close/with/del x ALL scripts of length <= 2 over 6 actions, plus random sequences (up to %d operations), autoreset and EchoPort '
